@@ -53,7 +53,13 @@ def gamma_obj(o: dict):
     if k == "sparse":
         if not o["subs"]:
             return ttb.sptensor(shape=tuple(o["shape"]))
-        return ttb.sptensor(np.array(o["subs"], dtype=int), np.array([unlimb(l) for l in o["vals"]])[:, None], tuple(o["shape"]))
+        # the element type of the subscript array is a presentation: the narrowest type that holds every subscript
+        # (rotated with a hash of the object)
+        import hashlib
+        mx = max(max(r) for r in o["subs"])
+        pick = hashlib.md5(json.dumps(o, sort_keys=True).encode()).digest()[5] % 3
+        sdt = [int, (np.int8 if mx <= 127 else np.int16), (np.uint8 if mx <= 255 else np.uint16)][pick] if mx < 2 ** 15 else int
+        return ttb.sptensor(np.array(o["subs"], dtype=sdt), np.array([unlimb(l) for l in o["vals"]])[:, None], tuple(o["shape"]))
     if k == "ktensor":
         U = [np.array([[unlimb(x) for x in row] for row in m]) for m in o["U"]]
         # presentation: every other factor matrix Fortran-ordered
